@@ -170,6 +170,9 @@ def run(ctx):
                     else:
                         tree.write(d + "/" + n, b"content\n")
                 tree.write(d + "/a.txt.abstract", b"abstract of a\n")
+                if ci % 2 == 1:
+                    # link blocks naming files on both sides of where the faulty entries sort: they keep meaning those files
+                    tree.write(d + "/.names", b"Path=./m.html\nName=Page M, renamed\n\nPath=./z.bin\nType=X\n\nPath=./b.txt\nName=Bee\nNumb=1\n")
             planted = [plant(tree, "f", f) for f in faults]
             # every third combination (and the non-UTF-8 name always) logs through the real file / syslog logging functions
             if faults == ["latin1-dangling"]:
